@@ -58,11 +58,11 @@ Theorem C07_lex_f_terminates_length : forall (fuel : nat) (ls : lexstate) (src :
   lex_f fuel ls src ln <> OutOfFuel /\ (forall site, lex_f fuel ls src ln <> Panic site).
 Proof. exact lex_f_terminates_length. Qed.
 
-(* from the initial lexer state (model/Compile.v): every source without '$' *)
-Theorem C07_lex_terminates_initial : forall (src : list Z) (ln : Z),
+(* from the initial lexer state (model/Compile.v), in either message language: every source without '$' *)
+Theorem C07_lex_terminates_initial : forall (ja : bool) (src : list Z) (ln : Z),
   forallb nodollar src = true ->
-  lex (mkLex 96 [] init_vars rhythm_rows) src ln <> OutOfFuel /\
-  (forall site, lex (mkLex 96 [] init_vars rhythm_rows) src ln <> Panic site).
+  lex (mkLex 96 [] init_vars rhythm_rows ja) src ln <> OutOfFuel /\
+  (forall site, lex (mkLex 96 [] init_vars rhythm_rows ja) src ln <> Panic site).
 Proof. exact lex_terminates_initial. Qed.
 Theorem C07_builtin_rhythm_inert : tbl_inert rhythm_rows = true.
 Proof. exact builtin_rhythm_inert. Qed.
@@ -86,15 +86,15 @@ Theorem C07_lex_terminates_refuted : exists (ls : lexstate) (src : list Z) (ln :
 Proof. exists ls0, rhythm_recursion_src, 0. exact lex_rhythm_recursion. Qed.
 (* ... and it is the recursion, not the amount of fuel: no fuel is enough (the implementation overflows its stack) *)
 Theorem C07_lex_rhythm_recursion_diverges : forall fuel : nat,
-  lex_f fuel (mkLex 96 [] init_vars rhythm_rows) (zs "$a{Rhythm{a}} Rhythm{a}") 0 = OutOfFuel.
+  lex_f fuel (mkLex 96 [] init_vars rhythm_rows false) (zs "$a{Rhythm{a}} Rhythm{a}") 0 = OutOfFuel.
 Proof. exact lex_rhythm_recursion_diverges. Qed.
 
 (* the premise is met by an ordinary program: a macro, a loop, a Sub block, a Rhythm block with built-in macros, a tuplet,
    a reservation, a chord; it lexes to more than 10 tokens *)
 Example C07_lex_premise_example :
   let src := zs "#A={c d} [2 c8 Sub{d4 r} #A] Rhythm{bshb} {ceg}4 TR(2) v.onTime(0,127,!1) 'ce'" in
-  lex_safe (mkLex 96 [] init_vars rhythm_rows) src = true /\
-  exists toks ls', lex (mkLex 96 [] init_vars rhythm_rows) src 0 = Ok (toks, ls') /\ (length toks > 10)%nat.
+  lex_safe (mkLex 96 [] init_vars rhythm_rows false) src = true /\
+  exists toks ls', lex (mkLex 96 [] init_vars rhythm_rows false) src 0 = Ok (toks, ls') /\ (length toks > 10)%nat.
 Proof. exact (conj example_safe example_lexes). Qed.
 
 (* ---- the whole pipeline model (model/Compile.v: lex -> exec_f -> flush ties / play_from -> generate) never answers Panic,
